@@ -18,6 +18,12 @@ CLAIMS = {
  "C09": ("must-pass-through / verdict-gating path rules, escape (who-may-touch) analysis of the wrapped reader, value-provenance rules for the position mirror, over go/ssa",
          "Decides structural necessary conditions, not the behaviour: the wrapped reader is read only after validateBlock and only on its nil verdict; raw pool readers never escape the validating wrapper; validateBlock restores the saved position on every path after moving the reader; the wrapper's offset mirrors the wrapped reader's position at construction, Seek and Read. Which damage a given patch happens to read, and the EOF case of 64KiB-multiple files (F13, arithmetic), are NOT decided.",
          "DESIGN.md 4 (C09)"),
+ "C13": ("who-may-call / effect confinement of source reads, must-update path rules, typestate shape of the three-state save protocol, set agreement of codec registrations and magic constants, call-graph unreachability (go/ssa + CHA)",
+         "Decides structural necessary conditions, not the behaviour: every read of the underlying source happens in the counting reader or Resume and updates the counted offset; framing reads go through the counting reader; the save protocol's transitions and the content of the popped checkpoint have the required shape and PopCheckpoint is unreachable from inside ReadMessage; compressors and decompressors are registered pairwise for the same algorithms with matching implementations, NONE is a pass-through; every magic written has a reader; Read counts are never discarded in package wire. The round trip itself and savior's decompressor checkpoints are NOT decided.",
+         "DESIGN.md 4 (C13)"),
+ "C17": ("call-graph effect confinement (which calls can reach a bowl write or pool read), transitive control-dependence of the skip decision on the whitelist lookup, sibling agreement of message types read by the skip and process paths with generated-struct-tag aliasing check, must-assign path rule (go/ssa)",
+         "Decides structural necessary conditions, not the behaviour: bowl writes/transposes and old-build pool reads are reachable from Resume only through processFile and never from skipFile; skipping is decided by the whitelist lookup keyed by the checked header index and is exclusive with processing; the skip path decodes every series message type with its own type (or one that cannot alias the end marker); the series kind skipFile dispatches on is assigned from the header just read. Equality of the selected files with full application is NOT decided.",
+         "DESIGN.md 4 (C17)"),
  "C16": ("channel-protocol shape rules over go/ssa: per-path send counting (defers included), edge-dominance of loop exits by channel-closed tests, dominance ordering of the shutdown sequence, select-case control dependence",
          "Decides structural necessary conditions, not the behaviour: the consumer goroutine drains the wound channel until closed; worker and consumer each send exactly one result on every path; every result-receiving select case re-puts and closes 'cancelled', which is closed nowhere else; the shutdown sequence dominates the return in order; relay/aggregation goroutines exit only on close and always signal; the fail-fast consumer never returns nil from its cancellation case. These quantify over all paths of the protocol code, which no schedule sample can; full deadlock freedom over all interleavings is NOT decided.",
          "DESIGN.md 4 (C16)"),
